@@ -258,6 +258,33 @@ pub fn scenarios(tier: Tier) -> Vec<NetScenario> {
         c.fates = vec![NFate::Ok, NFate::Drop, NFate::Delay4, NFate::DupLate3];
         v.push(c);
     }
+    // S12: lossy start — the first requests never arrive, the challenge comes late, then responses may be lost:
+    // the response step has its own time-out period counted from the challenge
+    {
+        let mut cl = ClientCfg::new(1);
+        cl.timeout = 2;
+        let mut c = SimCfg::base("requests lost for 1.5 s (time-out 2 s), late challenge, faults on the response leg", vec![cl]);
+        c.c2s_blackout_until = 6;
+        c.fault_from = 7; // the request of tick 6 gets through; faults start on the response leg
+        c.horizon = 11;
+        c.tail = 14;
+        c.fates = vec![NFate::Ok, NFate::Drop, NFate::Delay1];
+        v.push(c);
+    }
+    // S13: server silent after the handshake, the on-path attacker replays the server's own handshake
+    // replies (challenge, denial) and first keep-alive to the client: the client still times out on schedule
+    for &t in &[1i32, 2] {
+        let mut cl = ClientCfg::new(1);
+        cl.timeout = t;
+        let mut c = SimCfg::base(&format!("server silent after tick 6, timeout={}s, replays towards the client", t), vec![cl]);
+        c.server_silent_from = Some(6);
+        c.fault_from = 6;
+        c.horizon = 6 + (t as u32 * 4) + 2;
+        c.tail = 10;
+        c.fates = vec![NFate::Ok];
+        c.inject_to_client = true;
+        v.push(c);
+    }
     // S8: token expires while half-open (server never heard: expiry 4 s)
     {
         let mut cl = ClientCfg::new(1);
